@@ -312,7 +312,7 @@ def pointer_typed_overflow_props(q, gb):
 def classify(q, parsed, ptr_props=()):
     """-> (status, failed[], witness_ok, n_props, n_ok, functions)"""
     failed, unknown, witness_ok, n_ok, funcs = [], [], False, 0, set()
-    unwind_fail = []
+    unwind_fail, model_fail = [], []
     for r in parsed["result"]:
         desc = r.get("description", "")
         sl = r.get("sourceLocation", {})
@@ -331,13 +331,20 @@ def classify(q, parsed, ptr_props=()):
                 n_ok += 1
                 continue
             ent = (r["property"], desc, sl.get("file", ""), sl.get("line", ""), sl.get("function", ""))
-            if "unwinding assertion" in desc:
+            if "unwinding assertion" in desc or "recursion unwinding" in desc:
                 unwind_fail.append(ent)
+            elif desc.startswith("MODEL") or desc.startswith("no body for callee"):
+                # the code left what the environment models cover (unmodelled libc call, unexpected stdio use, capacity of a
+                # constant-size block): a limitation of the FRAMEWORK, never a violation => inconclusive
+                model_fail.append(ent)
             else:
                 failed.append(ent)
         else:
             unknown.append((r["property"], desc, st))
     n = len(parsed["result"])
+    if model_fail:
+        # results downstream of an unmodelled effect are not trustworthy either way
+        return "model", model_fail, witness_ok, n, n_ok, sorted(funcs), unknown, unwind_fail
     if failed:
         return "fail", failed, witness_ok, n, n_ok, sorted(funcs), unknown, unwind_fail
     if unwind_fail:
@@ -391,6 +398,10 @@ def run_query(build, q):
     elif st == "fail":
         res.status = "fail"
         res.detail = "; ".join("%s: %s @%s:%s" % (f[0], f[1], os.path.basename(f[2]), f[3]) for f in failed[:4])
+    elif st == "model":
+        res.status = "inconclusive"
+        res.detail = "the code left what the environment models cover: " + "; ".join("%s @%s:%s" % (f[1], os.path.basename(f[2]), f[3]) for f in failed[:3])
+        res.failed = []
     elif st == "unwind":
         res.status = "unwind"
         res.detail = "unwinding assertion failed (bound %d too small or non-terminating loop): %s" % (
